@@ -23,6 +23,9 @@ class OutOfRangeEnum(Enum):
 
     @classmethod
     def _missing_(cls, value: object):
+        if isinstance(value, np.integer):
+            # elements of NumPy arrays of enums are NumPy integers
+            value = int(value)
         if not isinstance(value, int):
             return None
 
